@@ -13,6 +13,7 @@ import FlacModel.Model.Finalize
 import Driver.Gen
 import FlacModel.Model.FileDecode
 import FlacModel.Model.Ctor
+import Driver.Meta
 
 open Flac
 
@@ -528,6 +529,12 @@ def runCase (line : String) : String :=
   | "structcmp" => opStructcmp f profile ++ " @@ -"
   | "crash" => opCrash f impl implHead profile ++ " @@ -"
   | "ctor" => opCtor f ++ " @@ -"
+  | "blocksw" => MetaDrv.opBlocksw f.get profile ++ " @@ -"
+  | "blocksr" => MetaDrv.opBlocksr f.get ++ " @@ -"
+  | "cuetext" => MetaDrv.opCuetext f.get profile ++ " @@ -"
+  | "accessors" => MetaDrv.opAccessors f.get profile ++ " @@ -"
+  | "picture" => MetaDrv.opPicture f.get profile ++ " @@ -"
+  | "update" => MetaDrv.opUpdate f.get ++ " @@ -"
   | "decfile" => opDecfile f profile ++ " @@ " ++ specSlotDecfile f impl implHead
   | "wr" =>
     if implHead != "ok" || impl.get "file" == "" then "model-skip @@ -" else
